@@ -326,6 +326,42 @@ def initial_population_events(ctx, R, d):
                 ctx.produced("fitness-arg-" + name, "tree", "grow", d, p)
 
 
+def cooperative_events(ctx, R):
+    """the co-evolution front end (two species over the same grammar): with the random source left to the library, as its
+    shipped example does, and with a seeded one; both arguments of every call of the user's function are programs"""
+    from geneticengine.algorithms.gp.cooperativegp import CooperativeGP
+    from geneticengine.evaluation.budget import EvaluationBudget
+    allowed = ctx.b.spec.get("reps") if isinstance(ctx.b.spec, dict) else None
+    if allowed and "tree" not in allowed:
+        return
+    # (the library's own deciders go ten levels deep: only grammars without lists are run in that mode)
+    modes = ("own-source", "seeded") if "list" not in repr(ctx.b.spec.get("classes")) else ("seeded",)
+    for mode in modes:
+        seen = []
+
+        def f(a, b):
+            seen.append((a, b))
+            return float(len(seen) % 3)
+
+        def run():
+            kw = {}
+            if mode == "seeded":
+                rs = NativeRandomSource(R.randint(0, 10 ** 6))
+                kw = {"random": rs, "representation1": TreeBasedRepresentation(ctx.g, MaxDepthDecider(rs, ctx.g, ctx.mind + 2)),
+                      "representation2": TreeBasedRepresentation(ctx.g, MaxDepthDecider(rs, ctx.g, ctx.mind + 1))}
+            alg = CooperativeGP(ctx.g, ctx.g, f, population1_size=3, population2_size=4, coevolutions=1,
+                                kwargs1={"budget": EvaluationBudget(6)}, kwargs2={"budget": EvaluationBudget(6)}, **kw)
+            return alg.search()
+        d = ctx.mind
+        r = ctx.attempt("coop-" + mode, "tree", "grow", d, run, None, project=False)
+        for a, b in seen[:6]:
+            ctx.produced("coop-arg-" + mode, "tree", "grow", d, a)
+            ctx.produced("coop-arg-" + mode, "tree", "grow", d, b)
+        if r is not None:
+            ctx.produced("coop-best-" + mode, "tree", "grow", d, r[0])
+            ctx.produced("coop-best-" + mode, "tree", "grow", d, r[1])
+
+
 def run_grammar(spec, prop, R, tier, batch, stats):
     b = GR.build_raw(spec) if "source" in spec else GR.build(spec)
     try:
@@ -393,6 +429,8 @@ def run_grammar(spec, prop, R, tier, batch, stats):
                 validate_events(ctx, R)
             if prop == "C01":
                 initial_population_events(ctx, R, d)
+                if "source" not in spec and mind <= 4:
+                    cooperative_events(ctx, R)
         cfg = {"k": "syn", "g": ctx.decl, "impl0": ctx.impl0, "feats": spec.get("feats", []),
                "annot": "strings" if spec.get("postponed") else "objects", "expd": False}
         batch.trace(spec["id"], ctx.events, cfg)
